@@ -218,6 +218,37 @@ pub fn run(args: &Args) -> i32 {
 	let mut sums: std::collections::BTreeMap<String, Value> = std::collections::BTreeMap::new();
 	let mut nind = 0u64;
 	let mut seeds_failed = vec![];
+	let mut pending: Option<Value> = None;
+	let mut kept: std::collections::BTreeMap<String, u64> = std::collections::BTreeMap::new();
+	let mut keep_ids: std::collections::BTreeSet<u64> = std::collections::BTreeSet::new();
+	let keep = args.u64("keep", 8);
+	let mut dropped = 0u64;
+	// abort / hang events recorded by this process come first so that they are never dropped as repeats
+	{
+		let evs = extra_events.lock().unwrap().clone();
+		let mut it = evs.into_iter();
+		while let Some(b) = it.next() {
+			if b["k"] == "Begin" {
+				if let Some(e) = it.next() {
+					let key = format!("{}|{}|{}", b["dec"], e["out"], e["alloc_refused"].is_null());
+					let n = kept.entry(key).or_insert(0u64);
+					*n += 1;
+					if *n <= keep {
+						nind += 2;
+						out.put(&b);
+						out.put(&e);
+						keep_ids.insert(e["i"].as_u64().unwrap_or(u64::MAX));
+					} else {
+						dropped += 1;
+					}
+				}
+			} else {
+				nind += 1;
+				out.put(&b);
+			}
+		}
+	}
+	let mut bad_all: Vec<Value> = extra_bad.lock().unwrap().clone();
 	let fl = files.lock().unwrap().clone();
 	for (of, bf) in fl.iter() {
 		if std::path::Path::new(of).exists() {
@@ -230,11 +261,15 @@ pub fn run(args: &Args) -> i32 {
 								sums.insert(key, e);
 							}
 							Some(s) => {
-								for f in ["n", "ok", "err", "post_ok", "bytes", "reads"].iter() {
+								for f in ["n", "ok", "err", "post_ok", "bytes", "reads", "seeds", "seeds_ok"].iter() {
 									s[*f] = json!(s[*f].as_u64().unwrap_or(0) + e[*f].as_u64().unwrap_or(0));
 								}
 								s["maxpeak"] = json!(s["maxpeak"].as_u64().unwrap_or(0).max(e["maxpeak"].as_u64().unwrap_or(0)));
 								// keep both worst calls: the trace specification checks every summary it is given
+								if e["hp"].as_u64().unwrap_or(0) > s["hp"].as_u64().unwrap_or(0) {
+									s["hp"] = e["hp"].clone();
+									s["hl"] = e["hl"].clone();
+								}
 								if e["wp"].as_u64().unwrap_or(0) > s["wp"].as_u64().unwrap_or(0) {
 									s["wp"] = e["wp"].clone();
 									s["wl"] = e["wl"].clone();
@@ -243,6 +278,24 @@ pub fn run(args: &Args) -> i32 {
 						}
 					}
 					Some("SeedsFailed") => seeds_failed.extend(e["list"].as_array().cloned().unwrap_or_default()),
+					Some("Begin") => pending = Some(e),
+					Some("End") => {
+						// keep at most KEEP calls per (decoder, outcome, normalised note, over-bound?) class: the rest are
+						// repetitions of the same observation (counted in `dropped_repeats`)
+						let b = pending.take().unwrap_or(json!({}));
+						let note: String = e["note"].as_str().unwrap_or("").chars().filter(|c| !c.is_ascii_digit()).take(70).collect();
+						let key = format!("{}|{}|{}|{}", b["dec"], e["out"], note, e["peak"].as_u64().unwrap_or(0) > 100_000);
+						let n = kept.entry(key).or_insert(0u64);
+						*n += 1;
+						if *n <= keep {
+							nind += 2;
+							out.put(&b);
+							out.put(&e);
+							keep_ids.insert(e["i"].as_u64().unwrap_or(u64::MAX));
+						} else {
+							dropped += 1;
+						}
+					}
 					_ => {
 						nind += 1;
 						out.put(&e);
@@ -252,18 +305,14 @@ pub fn run(args: &Args) -> i32 {
 			let _ = std::fs::remove_file(of);
 		}
 		if std::path::Path::new(bf).exists() {
-			for e in read_ndjson(bf) {
-				bad.put(&e);
-			}
+			bad_all.extend(read_ndjson(bf));
 			let _ = std::fs::remove_file(bf);
 		}
 	}
-	for e in extra_events.lock().unwrap().iter() {
-		nind += 1;
-		out.put(e);
-	}
-	for e in extra_bad.lock().unwrap().iter() {
-		bad.put(e);
+	for e in bad_all.iter() {
+		if keep_ids.contains(&e["i"].as_u64().unwrap_or(u64::MAX)) {
+			bad.put(e);
+		}
 	}
 	let nsum = sums.len();
 	for (_, s) in sums {
@@ -275,7 +324,7 @@ pub fn run(args: &Args) -> i32 {
 	println!(
 		"{}",
 		json!({"cases": total, "ops": space.ops.len(), "seeds": space.seeds.len(), "children": st.0, "restarts": st.1, "unconfirmed": st.2,
-			"individual_events": nind, "summary_events": nsum, "seeds_failed": seeds_failed})
+			"individual_events": nind, "dropped_repeats": dropped, "summary_events": nsum, "seeds_failed": seeds_failed})
 	);
 	0
 }
